@@ -105,21 +105,31 @@ def run_cases(exe, kp, cases, seed, nproc, tag):
 
 def case_key(c, got):
     q = [c["op"], c["f"], c["mu"]]
+    if c["f"] == "enc" and c["mu"] == "byte":
+        q.append(enc_region(c))
     if c["op"] == "verify":
         q += ["key-" + c["kv"], "data-" + c["rel"]]
     elif c["op"] == "decrypt":
         q += ["key-" + c["kv"]]
     else:
         q += ["resigned" if c["resign"] else "as-is", "nizk" if c["nizk"] else "plain"]
-    return "A:" + ":".join(q) + ":" + got
+    return ":".join(q) + ":" + got
+
+def enc_region(c):
+    """which part of the encoding a byte position belongs to (PRab: w | r* | gamma, SAEP: message | zeros | randomness)"""
+    p = c["pos"]
+    if c["op"] == "verify":
+        return "w" if p < 32 else "salt" if p < 52 else "gamma"
+    return "msg" if p < 20 else "zeros" if p < 40 else "rnd"
 
 def describe(c):
     if c["op"] == "verify":
-        return "key %s (%d bits%s), data class %s, salt %s, root %d, %s.%s, verified under the %s key with data '%s'" % (
-            c["key"], c["size"], ", NIZK" if c["nizk"] else "", c["d"], c["salt"], c["root"], c["f"], c["mu"], c["kv"], c["rel"])
+        return "key %s (%d bits%s), data class %s, salt %s, root %d, %s.%s%s, verified under the %s key with data '%s'" % (
+            c["key"], c["size"], ", NIZK" if c["nizk"] else "", c["d"], c["salt"], c["root"], c["f"], c["mu"],
+            "[%d]" % c["pos"] if c["pos"] >= 0 else "", c["kv"], c["rel"])
     if c["op"] == "decrypt":
-        return "key %s (%d bits), plaintext class %s, randomness %s, %s.%s, decrypted under the %s key" % (
-            c["key"], c["size"], c["pt"], c["r"], c["f"], c["mu"], c["kv"])
+        return "key %s (%d bits), plaintext class %s, randomness %s, %s.%s%s, decrypted under the %s key" % (
+            c["key"], c["size"], c["pt"], c["r"], c["f"], c["mu"], "[%d]" % c["pos"] if c["pos"] >= 0 else "", c["kv"])
     return "key %s (%d bits%s), %s.%s%s" % (c["key"], c["size"], ", NIZK" if c["nizk"] else "", c["f"], c["mu"],
                                           ", signed again by the owner" if c["resign"] else "")
 
@@ -140,36 +150,50 @@ def compare(ck, cases, events):
             seen[key][0] += 1
         else:
             seen[key] = [1, what, c, e]
-    nontrivial = set()
+    nontrivial, skipped = set(), []
     for i, c in byid.items():
         e = final[i]
         if not e.get("applied", True):
+            if c["f"] == "enc":      # no square of the wanted shape below this modulus: nothing was presented
+                skipped.append(i); continue
             raise vlib.Infra("mutation %s.%s of case %d could not be applied" % (c["f"], c["mu"], i))
         got = "acc" if e["res"] else "ref"
         if "res2" in e and e["res2"] != e["res"]:
-            bad("A:%s:public-and-secret-key-disagree" % c["op"], "TMCG_PublicKey says %s, TMCG_SecretKey says %s" % (e["res"], e["res2"]), c, e)
+            bad("%s:public-and-secret-key-disagree" % c["op"], "TMCG_PublicKey says %s, TMCG_SecretKey says %s" % (e["res"], e["res2"]), c, e)
         if c["exp"] != "?" and got != c["exp"]:
             bad(case_key(c, "accepted" if e["res"] else "refused"),
                 "the code %s what the specification %s" % ("accepts" if e["res"] else "refuses", "refuses" if e["res"] else "accepts"), c, e)
         if c["op"] == "decrypt" and e["res"] and e["out"] != pts.get(i):
-            bad("A:decrypt:wrong-plaintext", "decrypt returned %s, encrypted was %s" % (e["out"], pts.get(i)), c, e)
-        nontrivial.add(json.dumps([c["op"], c["key"], c.get("d", c.get("pt")), c.get("root", c.get("r")), c["f"], c["mu"],
+            bad("decrypt:wrong-plaintext", "decrypt returned %s, encrypted was %s" % (e["out"], pts.get(i)), c, e)
+        nontrivial.add(json.dumps([c["op"], c["key"], c.get("d", c.get("pt")), c.get("root", c.get("r")), c["f"], c["mu"], c.get("pos"),
                                    c.get("kv"), c.get("rel"), c.get("resign")]))
     for key, (n, what, c, e) in sorted(seen.items()):
         ck.violation(key, "%s  [%d case(s); first: %s]" % (what, n, describe(c)),
-                     replay_obj={"case": c, "result": {k: v for k, v in e.items() if k not in ("P",)}})
+                     replay_obj={"case": c, "result": {k: v for k, v in e.items() if k not in ("P",)},
+                                 "why": WHY.get(key.rsplit(":", 1)[0].split(":key-")[0])})
+    ck.part("tlc-cases", not_applicable=len(skipped))
     return nontrivial
 
+WHY = {
+    "verify:enc:top": "the presented value is a root of E + 2^(8n) (E the n-byte PRab encoding of the data, n = bits(m) div 8): a square that is "
+                        "no encoding.  verify() exports s^2 mod m in n-byte words and parses only the low word; the bits above the encoding "
+                        "(the leading zero bits of [BR96]) are never looked at",
+    "decrypt:enc:top": "the presented ciphertext is (x + 2^(8n))^2 mod m (x the n-byte SAEP block, n = bits(m) div 8): no image of encrypt().  "
+                         "decrypt() admits roots up to 8n+7 bits (sizeinbase div 8 <= n) and parses only the low n-byte word",
+}
+
+CASES = {}
 def classify(ev, r):
+    """the same key as direction A when the unmatched event is the verdict of a case"""
     if r.violation and "Invariant" in r.violation:
         return "trace:invariant:" + r.violation.split()[2]
     k = ev.get("e", "?")
-    if k in ("Verify", "Decrypt", "Check"):
-        return "trace:%s-%s" % (k, "accepted" if ev.get("res") else "refused")
+    if k in ("Verify", "Decrypt", "Check") and ev.get("id") in CASES:
+        return case_key(CASES[ev["id"]], "accepted" if ev.get("res") else "refused")
     return "trace:" + k
 
 def strip(e):
-    return {k: v for k, v in e.items() if k not in ("applied", "ms", "saltok", "dlen", "seed")}
+    return {k: v for k, v in e.items() if k not in ("applied", "ms", "saltok", "dlen", "seed", "text", "data")}
 
 def check_toy(ck, exe, lines):
     cp, rp = d("toy-cases.ndjson"), d("toy-results.ndjson")
@@ -276,12 +300,22 @@ def run(tier, seed):
     szl = [l for l in aux if "sizes" in l]
     if len(toy) < 5 or len(szl) < 10:
         raise vlib.Infra("auxiliary generator printed %d toy moduli, %d sizes" % (len(toy), len(szl)))
-    with cf.ThreadPoolExecutor(max_workers=3) as ex:
-        f1 = ex.submit(run_cases, exe, kp, cases, seed, nproc, "tlc")
+    CASES.clear(); CASES.update({c["id"]: c for c in cases})
+    # squares above the encoding: one execution per (operation, key), so that a rejection there hides nothing else
+    top = [c for c in cases if c["f"] == "enc" and c["mu"] == "top"]
+    groups = sorted({(c["op"], c["key"]) for c in top})
+    def run_top(g):
+        return run_cases(exe, kp, [c for c in top if (c["op"], c["key"]) == g], seed, 1, "top-%s-%s" % g)
+    with cf.ThreadPoolExecutor(max_workers=3 + len(groups)) as ex:
+        f1 = ex.submit(run_cases, exe, kp, [c for c in cases if c not in top], seed, nproc, "tlc")
         f2 = ex.submit(check_sizes, ck, exe, szl, seed, 4 if tier == "quick" else 8)
+        ft = [ex.submit(run_top, g) for g in groups]
         check_toy(ck, exe, toy)
         merged, events = f1.result()
+        tops = [f.result() for f in ft]
         f2.result()
+    for _, ev in tops:
+        events = events + ev
     vlib.log("driver done at %.0fs (%d cases, %d events)" % (time.time() - ck.t0, len(cases), len(events)))
     # ---- A: verdicts of the symbolic specification
     nontrivial = compare(ck, cases, events)
@@ -295,6 +329,9 @@ def run(tier, seed):
     n = tracecheck.validate(ck, PID, "tlc", "RabinKeyTrace", "RabinKeyTrace.cfg", execs, classify=classify, chunks=min(nproc, 8))
     if n == 0 and ck.violations == 0:
         raise vlib.Infra("no trace validated")
+    texecs = [[strip(e) for e in x] for tp, _ in tops for x in tracecheck.split_executions(tp)]
+    if texecs:
+        tracecheck.validate(ck, PID, "top", "RabinKeyTrace", "RabinKeyTrace.cfg", texecs, classify=classify, chunks=len(texecs))
     byid = {c["id"]: c for c in cases}
     shown = set()
     for e in events:
